@@ -20,9 +20,15 @@ def mapRangeSites : List (String × String × String) := [
 ]
 
 /-- calls made by TemplateGenFromString, in source order -/
-def calls_TemplateGenFromString : List String := ["parser.ParseAndBuild", "fmt.Errorf", "NewTemplateBuilder", "b.buildConstPart", "b.buildUionAndCode", "b.buildAnalyTable", "b.buildStateFunc", "b.buildReduceFunc", "b.buildTranslate", "os.Create", "fmt.Errorf", "b.WriteFile"]
+def calls_TemplateGenFromString : List String := ["parser.ParseAndBuild(input)", "fmt.Errorf(\"parse error: %s\", err)", "NewTemplateBuilder(w)", "b.buildConstPart()", "b.buildUionAndCode()", "b.buildAnalyTable()", "b.buildStateFunc()", "b.buildReduceFunc()", "b.buildTranslate()", "os.Create(file)", "fmt.Errorf(\"create file error: %s\", err)", "b.WriteFile(f)"]
 
 /-- calls made by TsGenFromString, in source order -/
-def calls_TsGenFromString : List String := ["parser.ParseAndBuild", "fmt.Errorf", "NewTsBuilder", "b.buildConstPart", "b.buildUionAndCode", "b.buildAnalyTable", "b.buildStateFunc", "b.buildReduceFunc", "b.buildTranslate", "os.Create", "fmt.Errorf", "f.WriteString", "f.WriteString", "f.WriteString", "f.WriteString", "f.WriteString", "f.WriteString", "f.WriteString", "f.WriteString", "f.Close"]
+def calls_TsGenFromString : List String := ["parser.ParseAndBuild(input)", "fmt.Errorf(\"parse error: %s\", err)", "NewTsBuilder(w)", "b.buildConstPart()", "b.buildUionAndCode()", "b.buildAnalyTable()", "b.buildStateFunc()", "b.buildReduceFunc()", "b.buildTranslate()", "os.Create(file)", "fmt.Errorf(\"create file error: %s\", err)", "f.WriteString(b.CodeHeader)", "f.WriteString(b.ConstPart)", "f.WriteString(b.UnionPart)", "f.WriteString(b.AnalyTable)", "f.WriteString(b.StateFunc)", "f.WriteString(b.ReduceFunc)", "f.WriteString(b.Translate)", "f.WriteString(b.CodeLast)", "f.Close()"]
+
+def templ_goCode_same_as_go_string : Bool := true
+def templ_goCode_ends_with_epilogue : Bool := true
+
+def templ_goObject_same_as_go_string : Bool := true
+def templ_goObject_ends_with_epilogue : Bool := true
 
 end Gen
